@@ -37,6 +37,11 @@ func (ex *c12Exec) rv(v c12Val) c12Val {
 			if tn := typeName(r.Field.Type()); tn != "strings.Builder" && tn != "bytes.Buffer" {
 				return ex.snapshot(key, r.Field.Type(), stt, 0)
 			}
+		} else if ok {
+			// an embedded struct: its fields are kept under the path of the struct that embeds it
+			if base := c12PromotedBase(r); base != key && ex.fieldStoredUnder(base, stt, 0) {
+				return ex.snapshot(base, r.Field.Type(), stt, 0)
+			}
 		}
 	}
 	if len(r.Idx) > 0 {
@@ -58,6 +63,27 @@ func (ex *c12Exec) rv(v c12Val) c12Val {
 func (ex *c12Exec) storedUnder(key string) bool {
 	for k := range ex.store {
 		if strings.HasPrefix(k, key+".") {
+			return true
+		}
+	}
+	return false
+}
+
+// fieldStoredUnder: some field of the struct type (fields of embedded structs included) has a known value below
+// the state path base.
+func (ex *c12Exec) fieldStoredUnder(base string, stt *types.Struct, depth int) bool {
+	for i := 0; i < stt.NumFields(); i++ {
+		f := stt.Field(i)
+		if f.Embedded() && depth < 4 {
+			if est, ok := f.Type().Underlying().(*types.Struct); ok {
+				if ex.fieldStoredUnder(base, est, depth+1) {
+					return true
+				}
+				continue
+			}
+		}
+		k := base + "." + f.Name()
+		if _, ok := ex.store[k]; ok || ex.storedUnder(k) {
 			return true
 		}
 	}
@@ -309,7 +335,10 @@ func (ex *c12Exec) selector(fr *c12Frame, t *ast.SelectorExpr) c12Val {
 				}
 			}
 		}
-		path := b.Path + "." + t.Sel.Name
+		// promoted fields live under the path of the outer struct (vt.cursor.Attribute is "Model.cursor.Attribute"):
+		// a selection written through the embedded struct (vt.cursor.Style.Attribute, or style.Attribute where
+		// style = &vt.cursor.Style) names the same piece of state and gets the same path
+		path := c12PromotedBase(b) + "." + t.Sel.Name
 		// re-anchor at a pointer to a named repository struct, as canonPath does
 		if name := anchorType(fr.info.TypeOf(t)); name != "" {
 			if _, isPtr := fr.info.TypeOf(t).(*types.Pointer); isPtr {
@@ -327,6 +356,23 @@ func (ex *c12Exec) selector(fr *c12Frame, t *ast.SelectorExpr) c12Val {
 		return c12Load{Path: b.Path, Idx: b.Idx, Sel: append(append([]string{}, b.Sel...), "."+t.Sel.Name)}
 	}
 	return c12Sym{Hole: -1, Desc: canonExpr(fr.info, t)}
+}
+
+// c12PromotedBase: the path under which the fields of the struct that r names are kept: r's own path, or, when r
+// names an embedded struct value (not an embedded pointer, which re-anchors the path), the path of the struct
+// that embeds it.
+func c12PromotedBase(r c12Ref) string {
+	if r.Field == nil || !r.Field.Embedded() {
+		return r.Path
+	}
+	if _, isStruct := r.Field.Type().Underlying().(*types.Struct); !isStruct {
+		return r.Path
+	}
+	suffix := "." + r.Field.Name()
+	if base := strings.TrimSuffix(r.Path, suffix); base != r.Path && base != "" {
+		return base
+	}
+	return r.Path
 }
 
 func (ex *c12Exec) fieldOf(fr *c12Frame, s *c12Struct, sel *ast.SelectorExpr) c12Val {
